@@ -1,5 +1,5 @@
-#define CAP 7
-#define XV_OP ""
+#define CAP 255
+#define XV_OP "at__ul_c"
 #define SEED 0u
 // C01/C02 replay search: random operation histories on the real xbasic_fixed_string<char, CAP, ...> (throwing policy)
 // against std::string, ending with the operation under suspicion (XV_OP substring match; empty = any).
